@@ -777,8 +777,16 @@ class Calendar(MutableTimeline[Event]):
         while current_end > start:
             window_start = max(start, current_end - window_size)
 
-            # Fetch this window forward, then reverse
-            window_events = list(self._fetch_forward(window_start, current_end))
+            # Fetch this window forward, then reverse.  An event belongs to the
+            # window that contains its start (the oldest window also takes the ones
+            # that began earlier and reach into the range), so one spanning a
+            # window edge is yielded once.
+            window_events = [
+                ev
+                for ev in self._fetch_forward(window_start, current_end)
+                if (ev.start < current_end or current_end == end)
+                and (ev.start >= window_start or window_start == start)
+            ]
             yield from reversed(window_events)
 
             current_end = window_start
